@@ -1129,3 +1129,69 @@ func listSources(c *Config) int {
 	}
 	return 0
 }
+
+
+// runSelftest: differential conformance of the sdkmath model. The harness
+// h_selftest.H_MathConformance is executed concretely inside the interpreter and
+// natively on a table of boundary and pseudo-random inputs; all observations must agree.
+func runSelftest(c *Config) int {
+	c.Prop = "SELFTEST"
+	l, err := load(c)
+	if err != nil {
+		fmt.Println("selftest: load failed:", err)
+		return 2
+	}
+	c.Only = "H_MathConformance"
+	specs, _, err := c.makeSpecs(l, nil)
+	if err != nil || len(specs) != 1 {
+		fmt.Println("selftest: no harness:", err)
+		return 2
+	}
+	symx.RegisterIntrinsics(elys + "/zzvrf")
+	P := symx.NewProgram(l.prog, elys+"/zzvrf", initAllow)
+	rp := &replayer{c: c, l: l}
+	defer rp.cleanup()
+	e18 := "1000000000000000000"
+	vals := []string{"0", "1", "-1", "2", "3", "7", "-7", "10", "499999999999999999", "500000000000000000", "500000000000000001", "-500000000000000000",
+		"1500000000000000000", "2500000000000000000", "-1500000000000000000", "-2500000000000000000", e18, "-" + e18, "999999999999999999", "1000000000000000001",
+		"123456789012345678901234567890", "-98765432109876543210987654321", "340282366920938463463374607431768211455", "3", "333333333333333333", "666666666666666667"}
+	// deterministic pseudo-random additions
+	seed := uint64(c.Seed)*6364136223846793005 + 1442695040888963407
+	for i := 0; i < 14; i++ {
+		seed = seed*6364136223846793005 + 1442695040888963407
+		v := new(big.Int).SetUint64(seed >> 3)
+		if i%3 == 0 {
+			v.Mul(v, new(big.Int).SetUint64(seed>>17))
+		}
+		if i%2 == 1 {
+			v.Neg(v)
+		}
+		vals = append(vals, v.String())
+	}
+	n, bad := 0, 0
+	for i := 0; i < len(vals); i++ {
+		model := map[string]string{"a": vals[i], "b": vals[(i*7+3)%len(vals)], "x": vals[(i*5+1)%len(vals)], "y": vals[(i*11+2)%len(vals)]}
+		w, ok := concreteWitness(P, c, specs[0], model)
+		if !ok {
+			fmt.Println("selftest: interpreter run failed for", model)
+			bad++
+			continue
+		}
+		out, err := rp.run("H_MathConformance", model)
+		if err != nil {
+			fmt.Println("selftest: native run failed:", err)
+			return 2
+		}
+		w.Model = model
+		if okc, why := compareWitness(w, out); !okc {
+			fmt.Printf("selftest: MISMATCH for %v: %s\n", model, why)
+			bad++
+		}
+		n++
+	}
+	fmt.Printf("selftest: sdkmath model vs real library: %d input vectors x %d observed operations, %d mismatches\n", n, 55, bad)
+	if bad > 0 {
+		return 1
+	}
+	return 0
+}
